@@ -7,7 +7,7 @@ SPEC = {'level': 'exploration',
                  'test-accept packages (arbitrary topologies are allowed there) are judged only for the context-free clauses and for leaving the pool unchanged',
                  'an in-package parent counts as present if it is in the pool or the spent output is an unspent output of the active chain (RefLedger replay)',
                  'results are looked up by wtxid; "in the pool" is read from a snapshot of the real pool after the call (mapTx), by txid and wtxid'],
- 'stages': [gen('vh_c29', 'c29_packages', 560, 9000, min_cases_quick=200,
+ 'stages': [gen('vh_c29', 'c29_packages', 448, 8000, min_cases_quick=160,
                 floors={'malformed:unsorted': 0.05, 'malformed:duplicates': 0.04, 'malformed:conflict': 0.02, 'malformed:not-child-with-parents': 0.15,
                         'malformed:count': 0.01, 'malformed:weight': 0.01, 'well-formed:multi': 0.5, 'evaluated:all-entered': 0.3, 'evaluated:partial': 0.1,
                         'result:INVALID': 0.3, 'result:MEMPOOL_ENTRY': 0.03, 'result:DIFFERENT_WITNESS': 0.01, 'evaluated:cpfp-sponsored-parent': 0.05,
